@@ -15,7 +15,9 @@ import fuzzylite as fl
 PID = "C03"
 MODULES = ["FlVerif.Props.C03"]
 NAMESPACE = "C03"
-TIE_A = ["Term."]
+TIE_A = ["Term.", "code:fuzzylite.term.Discrete.membership", "code:fuzzylite.term.Discrete.x", "code:fuzzylite.term.Discrete.y",
+         "code:fuzzylite.term.Discrete.to_xy", "code:fuzzylite.term.Discrete.create", "code:fuzzylite.term.Term.discretize",
+         "code:fuzzylite.term.Linear.membership", "code:fuzzylite.term.Constant.membership"]
 RULE = ("all 20 shape classes + Constant x parameterisations (both directions, vertical edges a=b / c=d, infinite shoulders, "
         "reversed Rectangle/SemiEllipse; parameter pools: decimals k/100, dyadics k/16, random doubles) x heights {1, 0.5, 0.3, "
         "random} x x in {every parameter and derived breakpoint with its two float neighbours, midpoints, random interior / "
